@@ -258,3 +258,37 @@ prop("C18", [
     assumptions=COMMON_ASSUME + ["texts a strict RFC 7231 recogniser refuses but pistache accepts leniently (e.g. '/' "
                                  "inside an extension subtype) are recorded as an outcome class, not violations"],
     bounds={"quick": "468 K evaluations", "thorough": "48 M evaluations"})
+
+prop("C06", [
+    {"name": "c06_writes", "sources": ["c06_writes.cc"], "flavour": "asan",
+     "args": {"quick": ["--mode=c06", "--D=2", "--timeout-ms=120000", "--deadline-s=170"],
+              "thorough": ["--mode=c06", "--D=3", "--thorough=1", "--timeout-ms=1200000", "--deadline-s=2400"]}},
+],
+    rule="one case = (write list, issue schedule): 1..3 writes per connection, each a memory buffer {1,2,5,4097 bytes} "
+         "or a file {1,5,70000 bytes}, each issued after 0..2 event-loop steps; for every such case ALL plans of "
+         "socket answers with at most D non-default entries over the first 8 send/sendfile calls (accept 1 / half / "
+         "all-but-one byte, or would-block held for 0..2 further steps and then released through a real epoll "
+         "re-arm), with and without client input arriving while blocked; executed on the real Tcp::Transport + "
+         "reactor stepped single-threaded over a socketpair; oracle: peer stream = concatenation in issue order, each "
+         "promise settled exactly once, fulfilled with the full byte count and not before its last byte was accepted, "
+         "no busy-wait; executions = (case x plan) runs; non-trivial = runs in which a non-default answer was hit",
+    assumptions=COMMON_ASSUME + ["writes are issued from the event-loop thread in this harness; the cross-thread hand-over "
+                                 "through the PollableQueue is covered by C13 and, end to end, by C09"],
+    bounds={"quick": "D=2 (1 057 plans) x 585 (write list, schedule) cases", "thorough": "D=3 x extended triples (until the deadline)"})
+
+prop("C07", [
+    {"name": "c07_stall", "sources": ["c06_writes.cc"], "flavour": "asan",
+     "args": {"quick": ["--mode=c07", "--timeout-ms=60000", "--deadline-s=170"],
+              "thorough": ["--mode=c07", "--timeout-ms=60000", "--deadline-s=600"]}},
+    {"name": "c07_blockplans", "sources": ["c06_writes.cc"], "flavour": "asan",
+     "args": {"quick": ["--mode=c06", "--D=1", "--busywait=1", "--last=120", "--timeout-ms=120000", "--deadline-s=170"]}},
+],
+    rule="one case = (pending writes 1..3 on connection A, A's socket answers would-block at write call i in 0..4, "
+         "released after d in 1..4 event-loop steps, a request on connection B of the same worker arriving at step j "
+         "in 0..6 whole or in two reads, kernel event order A-first / B-first): all 3360 combinations on the real "
+         "transport + Http::Handler stepped single-threaded; oracle: B's response complete within 4 (5) loop steps of "
+         "its arrival, never >= 3 consecutive would-block answers without returning to epoll_wait (busy-wait), after "
+         "release all of A's bytes arrive in order and A's promises are fulfilled once; second part re-runs the C06 "
+         "single-deviation plans for the busy-wait verdict; non-trivial = every combination (all stall A)",
+    assumptions=COMMON_ASSUME + ["'bounded time' is measured in event-loop steps, not wall time"],
+    bounds={"quick": "full grid 3x5x4x7x2x2", "thorough": "same grid (complete)"})
